@@ -36,7 +36,7 @@ ASSUMPTIONS = [
     'for a cycle any exception (incl. RecursionError) is acceptable, only non-termination is not',
 ]
 MINIMUMS = {
-    'quick': {'evaluations': 1200, 'objects_with>=3_paths': 150, 'cyclic_cases': 80, 'get_all_paths_checked': 5000, 'rebuilds_checked': 3000,
+    'quick': {'evaluations': 1200, 'objects_with>=3_paths': 150, 'cyclic_cases': 80, 'custom_registry_cycles': 15, 'get_all_paths_checked': 5000, 'rebuilds_checked': 3000,
               'paths_checked': 30000, 'tempbox_structures': 100, 'positional_buildables': 100},
     'thorough': {'evaluations': 40000, 'objects_with>=3_paths': 5000, 'cyclic_cases': 3000},
 }
@@ -451,6 +451,16 @@ def inject_cycle(s, rng):
   return 'buildable'
 
 
+MEMOIZED_APIS = {'iterate-memoized', 'memoized-map_children', 'build',
+                 'custom-registry:iterate-memoized', 'custom-registry:memoized-map_children'}
+
+
+def _run_memo(root, reg):
+  fn = lambda v, st: st.map_children(v)
+  trav = daglish.MemoizedTraversal(fn, root, registry=reg)
+  return fn(root, trav.initial_state())
+
+
 def run_cycle(spec, acc):
   for _, rng in acc.cases(spec):
     root = make_structure(rng, False)
@@ -472,11 +482,35 @@ def run_cycle(spec, acc):
         ('legacy.traverse_with_path', lambda: daglish_legacy.traverse_with_path(_ident1, s)),
         ('build', lambda: fdl.build(s)),
     ]
+    # a cycle only through a node type registered in a CUSTOM registry
+    if rng.random() < 0.3:
+      box = vnodes.CustomBox([1, [2]])
+      holder = rng.choice(['self', 'list', 'nested-box'])
+      if holder == 'self':
+        box.items.append(box)
+      elif holder == 'list':
+        box.items[1].append(box)
+      else:
+        inner = vnodes.CustomBox([box])
+        box.items.append(inner)
+      reg = vnodes.CUSTOM_REGISTRY
+      apis += [
+          ('custom-registry:iterate-memoized', lambda: list(daglish.iterate(box, memoized=True, registry=reg))),
+          ('custom-registry:memoized-map_children', lambda: daglish.MemoizedTraversal(
+              lambda v, st: st.map_children(v), box, registry=reg).initial_state().map_children(box)
+           if False else _run_memo(box, reg)),
+      ]
+      acc.obs('custom_registry_cycles')
     for name, fn in apis:
       try:
         fn()
       except RecursionError:
         acc.obs(f'cycle:{name}:RecursionError')
+        if name in MEMOIZED_APIS:
+          acc.violation(f'cycle-not-detected:recursion-error:{name}',
+                        f'{name} memoizes visited objects and reports cycles; it ended in a bare '
+                        'RecursionError instead (cycle through a ' + kind + ')',
+                        {'structure_before_cycle': sketch, 'cycle_through': kind})
         continue
       except Exception as e:  # pylint: disable=broad-except
         acc.obs(f'cycle:{name}:{type(e).__name__}')
